@@ -718,6 +718,51 @@ def two_spellings_scenario(ctx, viol):
         pr.destroy()
 
 
+def glued_record_scenario(ctx, viol):
+    """A script leaves text without a newline on its stderr and then calls a redo command (`printf 'checking y... ' >&2;
+    redo-ifchange y`, the configure idiom): redo-ifchange's start record lands on the same log line as the text.  Every
+    line of y's script must still appear exactly once under y, live and in the replay, in both output modes (before fix
+    2aec02b catlog only recognised a record at the start of a line and never descended into y's log)."""
+    stats = dict(builds=0)
+    for j in (1, 2):
+        for pretty in (False, True):
+            pr = Project()
+            try:
+                pr.write("all.do", "echo all-1 >&2\nprintf 'checking y... ' >&2\nredo-ifchange y\necho yes >&2\nprintf 'checking z and w... ' >&2\nredo-ifchange z w\necho fine >&2\necho all-2 >&2\n")
+                pr.write("y.do", "echo y-1 >&2\necho y-2 >&2\nprintf 'nested... ' >&2\nredo-ifchange sub/v\necho y-3 >&2\necho y\n")
+                pr.write("z.do", "echo z-1 >&2\necho z\n")
+                pr.write("w.do", "echo w-1 >&2\necho w\n")
+                pr.write("sub/v.do", "echo v-1 >&2\necho v\n")
+                flags = ["--no-color", "--no-status"] + ([] if pretty else ["--no-pretty"])
+                rc, out, err = pr.run(["redo", "-j%d" % j] + flags + ["all"], timeout=60)
+                rc2, out2, err2 = pr.run(["redo-log"] + flags + ["-r", "all"], timeout=60)
+                stats["builds"] += 1
+                problems = []
+                if rc != 0 or rc2 != 0:
+                    problems.append("exit statuses %s %s" % (rc, rc2))
+                for what, text in (("live output", err), ("redo-log -r", out2)):
+                    ls = [l.strip() for l in text.splitlines()]
+                    for ln in ("all-1", "yes", "fine", "all-2", "y-1", "y-2", "y-3", "z-1", "w-1", "v-1"):
+                        n = ls.count(ln)
+                        if n != 1:
+                            problems.append("%s shows %r %d times" % (what, ln, n))
+                    # attribution and order (raw mode only: the records name the target)
+                    if not pretty and not problems:
+                        got = attribute(parse_out(text))
+                        for t, want in (("y", ["y-1", "y-2", "nested...", "y-3"]), ("sub/v", ["v-1"]), ("z", ["z-1"]), ("w", ["w-1"])):
+                            if [x.strip() for x in got.get(t, [])] != want:
+                                problems.append("%s: lines under %s are %r, expected %r" % (what, t, got.get(t), want))
+                if problems:
+                    p = write_replay("C18", "glued-record", dict(kind="impl-monitor", clause="every stderr line appears exactly once, in order, under its target, live and in the replay", j=j, pretty=pretty,
+                                                                 problems=problems, live=err[-2000:], replay=out2[-2000:],
+                                                                 scenario="all.do: printf 'checking y... ' >&2; redo-ifchange y; … ; y.do writes three lines and does the same with sub/v"))
+                    viol.append(Violation("C18", p, "a start record glued to unterminated text: " + "; ".join(problems[:3])))
+                    return stats
+            finally:
+                pr.destroy()
+    return stats
+
+
 def non_utf8_scenario(ctx, viol):
     """A script writes a stderr line containing bytes that are not UTF-8 (a compiler quoting a Latin-1 file name, a
     truncated multi-byte sequence at a line end, a NUL-free binary blob).  The property quantifies over every line a
@@ -1118,6 +1163,8 @@ def run(ctx):
         concurrent_reader_scenario(ctx, viol)
     if not viol:
         two_spellings_scenario(ctx, viol)
+    if not viol:
+        glued_record_scenario(ctx, viol)
     if not viol:
         non_utf8_scenario(ctx, viol)
     if not viol:
